@@ -324,6 +324,10 @@ def catalogue(rng, level=0, classes=None):
     for (shp, angles, ndet) in xr:
         add("XRayTransform2D", dict(shape=shp, angles=angles, det_count=ndet),
             lambda shp=shp, angles=angles, ndet=ndet: XRayTransform2D(shp, angles=np.array(angles), det_count=ndet), kind=APPROX)
+    # unit pixels at the documented angles 0 and pi/2: the projections are the row / column sums
+    for (shp, ndet) in [((3, 5), 7), ((4, 6), 8), ((3, 3), 5), ((2, 4), 6), ((5, 3), 9)] + ([((4, 4), 6), ((1, 3), 3)] if level else []):
+        add("XRayTransform2D", dict(shape=shp, angles=[0.0, np.pi / 2], det_count=ndet, dx=1.0),
+            lambda shp=shp, ndet=ndet: XRayTransform2D(shp, angles=np.array([0.0, np.pi / 2]), det_count=ndet, dx=1.0), kind=APPROX)
     for (shp, dshape) in [((2, 3, 2), (4, 4)), ((3, 2, 2), (2, 3))]:
         add("XRayTransform3D", dict(shape=shp, det_shape=dshape),
             lambda shp=shp, dshape=dshape: XRayTransform3D(
